@@ -549,8 +549,8 @@ func c15MakeGen(leave bool) func(t *rapid.T) c15MakeCase {
 func init() {
 	vfRapid("C15/make-join",
 		"non-trivial = at most one of the guards (version supported, user of origin, local server in room, restricted join authorisable, event passes auth rules) is violated; distinct = distinct Case JSON",
-		1200, 30000, 8, c15MakeGen(false), c15MakeCheck)
+		2000, 60000, 8, c15MakeGen(false), c15MakeCheck)
 	vfRapid("C15/make-leave",
 		"non-trivial = at most one of the guards (user of origin, local server in room, event passes auth rules) is violated; distinct = distinct Case JSON",
-		500, 10000, 4, c15MakeGen(true), c15MakeCheck)
+		600, 15000, 4, c15MakeGen(true), c15MakeCheck)
 }
